@@ -446,19 +446,28 @@ func repoGarbageCollect(repo Repo, conf config.Config, index types.Index, locked
 		}
 	}
 	seen := map[digest.Digest]bool{}
+	// a digest may be listed more than once: as a manifest and as the config or a layer of an image, or under
+	// different media types; it is opened once per way of parsing it, seen only says the blob is to be preserved
+	type walkKey struct {
+		digest       digest.Digest
+		index, image bool
+	}
+	walked := map[walkKey]bool{}
 	// walk all manifests to note seen digests
 	for len(manifests) > 0 {
 		// work from tail to make deletes easier
 		d := manifests[len(manifests)-1]
 		manifests = manifests[:len(manifests)-1]
 		inIndex[d.Digest] = true
-		if seen[d.Digest] {
+		key := walkKey{digest: d.Digest, index: types.MediaTypeIndex(d.MediaType), image: types.MediaTypeImage(d.MediaType)}
+		if walked[key] {
 			continue
 		}
 		br, err := repo.blobGet(d.Digest, locked)
 		if err != nil {
 			continue
 		}
+		walked[key] = true
 		seen[d.Digest] = true
 		// parse manifests for descriptors (manifests, config, layers)
 		if types.MediaTypeIndex(d.MediaType) {
